@@ -10,7 +10,7 @@
    Not proved: stability of gradient rewriting, of float printing (ntos) under re-parsing and of the
    step order; the byte-level judge decides the whole property on every run — partial. *)
 From Coq Require Import ZArith List Bool Ascii String Reals.
-From Pico Require Import Num PyStr G_meta Walk Inherit Refs E3_idem E5_idem.
+From Pico Require Import Num PyStr G_meta Walk Inherit Refs E3_idem E5_idem Defs E5_defs.
 Import ListNotations.
 
 Theorem C07_round_idempotent : forall nd x, Rround_nd nd (Rround_nd nd x) = Rround_nd nd x.
@@ -37,5 +37,14 @@ Example C07_premise_met :
          [("M"%char, [1; 2]%R); ("L"%char, [3; 4]%R); ("Z"%char, [])].
 Proof. repeat constructor; cbn; tauto. Qed.
 
-Definition C07_all := (C07_round_idempotent, C07_pico_path_fixed, C07_pico_group_fixed, C07_orphan_removal_idempotent, C07_premise_met).
+(* the order of defs: _add_to_defs inserts before the first greater id and at the FRONT when there is none.  A strictly
+   ascending order is a fixed point of re-conversion for any number of gradients; an order built with a front insertion is
+   not in general - the recorded finding, exhibited in the model (its witness is replayed on the implementation on every run) *)
+Theorem C07_ascending_defs_are_a_fixed_point l : ascending l = true -> reconvert l = l.
+Proof. exact (ascending_is_fixed_point l). Qed.
+
+Theorem C07_defs_order_refuted : exists l o, reconvert (drop o (reconvert l)) <> drop o (reconvert l).
+Proof. exact defs_order_refuted. Qed.
+
+Definition C07_all := (C07_round_idempotent, C07_pico_path_fixed, C07_pico_group_fixed, C07_orphan_removal_idempotent, C07_premise_met, C07_ascending_defs_are_a_fixed_point, C07_defs_order_refuted).
 Print Assumptions C07_all.
